@@ -47,6 +47,42 @@ def o_sizeof(src, kw, obj, trailing):
     return None
 
 
+def _ask(c, kw):
+    try:
+        return ('ok', c.sizeof(**kw))
+    except core.SizeofError:
+        return ('SizeofError',)
+    except core.ConstructError as e:
+        return ('ConstructError',)
+    except Exception as e:
+        return ('foreign', type(e).__name__)
+
+
+@C.oracle('sizeof_history')
+def o_sizeof_history(src, kws):
+    """one instance asked under several keyword contexts in turn answers each time what a fresh instance answers; so does the instance
+    that compile() returns, and whenever it answers n, building with it under that context advances the stream by n"""
+    fresh = [_ask(C.get(src), kw) for kw in kws]
+    one = C.get(src)
+    for rnd in range(2):
+        for kw, f in zip(kws, fresh):
+            a = _ask(one, kw)
+            if a != f:
+                return 'asked again under %r the same instance answers %r, a fresh instance answers %r' % (kw, a, f)
+    try:
+        cc = C.get(src).compile()
+    except Exception:
+        return None
+    for rnd in range(2):
+        for kw, f in zip(kws, fresh):
+            a = _ask(cc, kw)
+            if a[0] == 'ok' and f[0] == 'ok' and a != f:
+                return 'the compiled instance asked under %r answers %r, the construct answers %r' % (kw, a[1], f[1])
+            if a[0] == 'foreign':
+                return 'the compiled instance raised %s for sizeof(**%r)' % (a[1], kw)
+    return None
+
+
 def R_force(v):
     # lazy results must not move the position when forced
     return v
@@ -168,6 +204,17 @@ def run(tier, seed):
                 kk[k] = alt
                 cases.append(dict(src=src, op='sizeof', kw=kk))
                 checks.append((src, kk, C.NOVAL))
+    for src, kw, obj in CTX_TEMPLATES:
+        if not kw:
+            continue
+        kws = [dict(kw)]
+        for k in sorted(kw):
+            for alt in ((0, 1, 5, 2) if not isinstance(kw[k], bool) else (False, True)):
+                kk = dict(kw)
+                kk[k] = alt
+                kws.append(kk)
+        kws += [dict(), dict(kw)]
+        acc.check('sizeof_history', src, kws=kws)
     for src, kw, obj in LAMBDA_TEMPLATES:
         keys = sorted(kw)
         for sub in [dict(), dict(kw)] + [{k: v for k, v in kw.items() if k != drop} for drop in keys]:
